@@ -294,7 +294,10 @@ func genRedirTarget(r *Rng) string {
 	h := hosts[r.Intn(len(hosts))]
 	paths := []string{"", "/", "/x", "/a/b?c=d", "/%2e%2e/", "/#f"}
 	p := paths[r.Intn(len(paths))]
-	switch r.Intn(22) {
+	switch r.Intn(24) {
+	case 22, 23: // a local target that itself carries a return target: the login page with a hostile redir inside
+		inner := []string{"//" + h + p, "https://" + h + p, "/\\" + h, "%2F%2F" + h + "%2Fx", "https:%2F%2F" + h}[r.Intn(5)]
+		return []string{"/auth/login", "/login", "/x/y/login", "/app/login"}[r.Intn(4)] + "?redir=" + inner
 	case 20, 21: // absolute URLs that name the site itself, with paths that are off-site targets in their own right
 		tail := []string{"//" + h + p, "/\\" + h + p, "/" + p, "/%2F" + h, "//" + h + "/..", "/\t/" + h}[r.Intn(6)]
 		return []string{"https://site.example", "http://site.example", "HTTPS://SITE.EXAMPLE", "//site.example", "https://site.example:443"}[r.Intn(5)] + tail
